@@ -9,3 +9,10 @@ add("C01", "E1 ctxmachine", "model_checking",
     "Every context state reachable within the alphabet is found by BFS on the real implementation; from every state the complete dim-string x shape alphabet is fired and verdict, AnnotationError and successor state are compared with a reference interpreter of the documented dim language. Exhaustive within the stated token/shape bounds.",
     "Trusts vf/refs/shapes.step as the reading of docs/api/array.md; don't-care zones (mismatch + unevaluable symbolic axis; '#expr' of size 1) accept either documented outcome; sizes > 3 and more than 2 named axes are outside the bound.",
     "DESIGN.md §6 C01")
+
+ENGINES[0]["serves_properties"].append("C04")
+add("C04", "E1 ctxmachine", "model_checking",
+    "explicit-state exploration of the checking context with single-fault enumeration; invariant checked on every transition",
+    "From each of a set of context states reached by real checks, every (annotation, value) of an alphabet built so that the mismatch or exception is only discoverable after k axes / k leaves matched is executed on the implementation; after every rejected or raising check the context must be identical (internal memo, print_bindings text and a non-binding public probe battery) and after every passing check an immediate repeat must pass and change nothing. One injected fault (Exception and BaseException) at every access of shape/dtype.",
+    "Faults are injected only through harness-owned array objects (shape/dtype properties); the same invariant is additionally evaluated on every C01 transition.",
+    "DESIGN.md §6 C04")
